@@ -53,6 +53,7 @@ func runC20(w *World, tier string, advMode string) (bool, interface{}) {
 	c := NewCluster(w, n)
 	c.L.Faults.ShortReads = w.Tape.Bool(1, 2, "shortReads")
 	c.L.Faults.PermuteResults = true
+	c.L.Faults.BoardDownAtSubmit = w.Tape.Bool(1, 2, "boardOutages") // single submissions refused by the board; operators submit again
 	members := AllMembers(n)
 	round, rep := c.StartDKG(w.Tape.Choose(n, "proposer"), t, members)
 	if !rep.OK() {
